@@ -135,7 +135,8 @@ Definition mixed_insert2 (t : tape) : outcome tape :=
   end.
 
 (* chunks_exact(2) over tape[parent_ind+1..], every pair [Array(x), End(y)] with x == y+1;
-   a trailing odd token is ignored by chunks_exact *)
+   a trailing odd token is ignored by chunks_exact, hence `pairs.remainder().is_empty()` in
+   [only_empties] (fix for finding L: `a = { {} x y = z }` used to lose x) *)
 Fixpoint all_empty_pairs (l : tape) : bool :=
   match l with
   | TArray x :: TEnd y :: r => Nat.eqb x (S y) && all_empty_pairs r
@@ -144,7 +145,7 @@ Fixpoint all_empty_pairs (l : tape) : bool :=
   end.
 Definition only_empties (par : nat) (t : tape) : bool :=
   let rest := skipn (S par) t in
-  Nat.leb 2 (length rest) && all_empty_pairs rest.
+  Nat.leb 2 (length rest) && Nat.even (length rest) && all_empty_pairs rest.
 
 (* the three id-class tests of the fast path *)
 Definition tokenish (fx : bool) (id : N) : bool :=
